@@ -134,7 +134,7 @@ class Pair(Vector):
                                                 lshape)
 
         # Swap the axes and negate the new y
-        new_values = new_values[..., ::-1]
+        new_values = new_values[..., ::-1].copy()   # not a view of the operand
 
         # Roll the axis back
         new_values = np.rollaxis(new_values, -1, lshape - self._drank_ - 1)
